@@ -19,6 +19,10 @@ func init() {
 			"(R4) every integer division or remainder has a divisor proven non-zero under its dominating guards; (R5) an input map is never read with a plain index expression for a key that may be absent (missing key vs stored zero value). R4/R5 expect zero instances on the library and self-test their matcher on an embedded snippet on every run. Not decided: that each helper returns the value of its documented definition (value-level equality over all inputs), and indices that depend only on loop counters (listed in the evidence as counter-indexed, not claimed).",
 		Trusted: append([]string{"user callbacks do not mutate the slices they are applied to"}, commonTrusted...),
 		Run:     runC03,
+		Relies: []Dep{
+			{Prop: "C05", Rule: "R1", Keys: []string{"Distinct~", "DuplicateMap~", "Exists~", "Keys~", "Merge~", "SliceToMap~", "Values~"}, Floor: 16, Why: "the empty/nil-operand contract of a helper is pinned by agreement with its interface{} twin"},
+			{Prop: "C05", Rule: "R2", Keys: []string{"Distinct~", "DuplicateMap~", "Exists~", "Keys~", "Merge~", "SliceToMap~", "Values~"}, Floor: 7, Why: "the element semantics of a helper are pinned by agreement with its interface{} twin"},
+		},
 	})
 }
 
